@@ -476,6 +476,13 @@ func (e *Exec) convert(v Value, from, to types.Type) Value {
 		return c.Zext(x, tw)
 	case *StringV:
 		if _, ok := tu.(*types.Slice); ok {
+			if x.Tok == nil && !(x.Off.IsConst() && x.Len.IsConst()) {
+				arr := &ArrayObj{Elems: make([]Value, len(x.B)), Obj: e.newObj("array", "[]byte(string)")}
+				for i, b := range x.B {
+					arr.Elems[i] = b
+				}
+				return &SliceV{Arr: arr, Off: x.Off, Len: x.Len, Cap: x.Len}
+			}
 			bs := e.strBytes(x)
 			arr := &ArrayObj{Elems: make([]Value, len(bs)), Obj: e.newObj("array", "[]byte(string)")}
 			for i, b := range bs {
@@ -489,7 +496,18 @@ func (e *Exec) convert(v Value, from, to types.Type) Value {
 		}
 	case *SliceV:
 		if isString(to) {
-			// string([]byte): copy
+			// string([]byte): copy. A symbolic window is kept symbolic over a
+			// snapshot of the backing array (no fork).
+			if isNil(x) {
+				return e.constString("")
+			}
+			if !(x.Off.IsConst() && x.Len.IsConst()) && e.isByteArr(x.Arr) {
+				bs := make([]*Term, len(x.Arr.Elems))
+				for i, el := range x.Arr.Elems {
+					bs[i] = el.(*Term)
+				}
+				return &StringV{B: bs, Off: x.Off, Len: x.Len}
+			}
 			bs := e.sliceBytes(x)
 			return &StringV{B: bs, Off: c.Int(0), Len: c.Int(int64(len(bs)))}
 		}
@@ -640,7 +658,11 @@ func (e *Exec) stringIndex(s *StringV, idx *Term) Value {
 // byteAt reads b[pos] for a possibly symbolic position.
 func (e *Exec) byteAt(b []*Term, pos *Term) *Term {
 	if pos.IsConst() {
-		return b[pos.SVal()]
+		if p := pos.SVal(); p >= 0 && p < int64(len(b)) {
+			return b[p]
+		}
+		// out of the backing store: only reachable under a guard that is false
+		return e.ctx.BV(0, 8)
 	}
 	if len(b) == 0 {
 		return e.ctx.BV(0, 8)
